@@ -136,18 +136,21 @@ func solveOne(o *Obl, opt solveOpts) {
 	if final == "" {
 		// all inconclusive
 		st := "unknown"
-		allTimeout := true
+		allTimeout, allError := true, true
 		for _, v := range o.Raw {
 			fl := firstLine(v)
 			if fl == "unknown" {
 				allTimeout = false
-			}
-			if strings.HasPrefix(fl, "(error") {
-				st = "error"
+				allError = false
+			} else if strings.HasPrefix(fl, "(error") {
 				allTimeout = false
+			} else {
+				allError = false
 			}
 		}
-		if allTimeout {
+		if allError {
+			st = "error"
+		} else if allTimeout {
 			st = "timeout"
 		}
 		o.Status = st
